@@ -10,3 +10,43 @@ package directinvoke
 // frame of the direct-invoke reply path: the ResponseWriter model, the reset message it completes and the metrics record
 //@ func SendDirectInvokeResponse
 //@   modifies directSend
+
+// ---------------------------------------------------------------------------------------------
+// C17: a direct invoke request is parsed from its own headers only. The expected values below mention
+// the request and the token, never the previous value of a package variable.
+// ---------------------------------------------------------------------------------------------
+
+//@ spec diMaxSize(r *net/http.Request) int = ite(hdr(r.Header, MaxPayloadSizeHeader) == "", interop.MaxPayloadSize, intOf(hdr(r.Header, MaxPayloadSizeHeader)))
+//@ spec diHeaderMode(r *net/http.Request) string = ite(hdr(r.Header, InvokeResponseModeHeader) == "", "Buffered", ite(foldEq(hdr(r.Header, InvokeResponseModeHeader), "Buffered"), "Buffered", "Streaming"))
+//@ spec diStreaming(r *net/http.Request) bool = diMaxSize(r) == -1 || diHeaderMode(r) == "Streaming"
+//@ spec diMode(r *net/http.Request) string = ite(diStreaming(r), "Streaming", diHeaderMode(r))
+//@ spec diRate(r *net/http.Request) int = ite(hdr(r.Header, ResponseBandwidthRateHeader) == "", interop.ResponseBandwidthRate, intOf(hdr(r.Header, ResponseBandwidthRateHeader)))
+//@ spec diBurst(r *net/http.Request) int = ite(hdr(r.Header, ResponseBandwidthBurstSizeHeader) == "", interop.ResponseBandwidthBurstSize, intOf(hdr(r.Header, ResponseBandwidthBurstSizeHeader)))
+
+//@ func convertToInvokeResponseMode
+//@   modifies nothing
+//@   ensures [buffered] foldEq(value, "Buffered") ==> r0 == "Buffered" && r1 == nil
+//@   ensures [streaming] !foldEq(value, "Buffered") && foldEq(value, "Streaming") ==> r0 == "Streaming" && r1 == nil
+//@   ensures [unknown] !foldEq(value, "Buffered") && !foldEq(value, "Streaming") ==> r1 == interop.ErrInvalidInvokeResponseMode
+
+//@ func isStreamingInvoke
+//@   modifies nothing
+//@   ensures r0 <==> (maxDirectResponseSize == -1 || invokeResponseMode == "Streaming")
+
+//@ func renderBadRequest
+//@   modifies httpOut
+//@   ensures [400] ghost(httpStatus) == 400 && ghost(httpStatusWriter) == ref(w)
+
+//@ func ReceiveDirectInvoke
+//@   modifies httpOut, MaxDirectResponseSize, InvokeResponseMode, ResponseBandwidthRate, ResponseBandwidthBurstSize
+//@   ensures [rejected-is-nil] r1 != nil ==> r0 == nil && ghost(httpStatus) == 400
+//@   ensures [size-from-request-only] r1 == nil ==> MaxDirectResponseSize == diMaxSize(r) && MaxDirectResponseSize >= -1
+//@   ensures [mode-from-request-only] r1 == nil ==> InvokeResponseMode == diMode(r) && r0.InvokeResponseMode == diMode(r)
+//@   ensures [rate-from-request-only] r1 == nil && diStreaming(r) ==> ResponseBandwidthRate == diRate(r) && interop.MinResponseBandwidthRate <= ResponseBandwidthRate && ResponseBandwidthRate <= interop.MaxResponseBandwidthRate
+//@   ensures [burst-from-request-only] r1 == nil && diStreaming(r) ==> ResponseBandwidthBurstSize == diBurst(r) && interop.MinResponseBandwidthBurstSize <= ResponseBandwidthBurstSize && ResponseBandwidthBurstSize <= interop.MaxResponseBandwidthBurstSize
+//@   ensures [validated-against-token] r1 == nil ==> hdr(r.Header, InvokeIDHeader) == token.InvokeID && urlParam(r, "reservationtoken") == token.ReservationToken && hdr(r.Header, VersionIDHeader) == token.VersionID
+//@   ensures [fields] r1 == nil ==> r0 != nil && r0.ID == token.InvokeID && r0.TraceID == token.TraceID && r0.LambdaSegmentID == token.LambdaSegmentID && r0.Payload == r.Body && r0.ReservationToken == token.ReservationToken && r0.InvokedFunctionArn == hdr(r.Header, InvokedFunctionArnHeader) && r0.ContentType == hdr(r.Header, ContentTypeHeader)
+
+//@ func (*CustomerHeaders).Load
+//@   modifies s.CognitoIdentityID, s.CognitoIdentityPoolID, s.ClientContext
+//@   ensures [empty-input] in == "" ==> r0 == nil && s.CognitoIdentityID == "" && s.CognitoIdentityPoolID == "" && s.ClientContext == ""
